@@ -263,6 +263,45 @@ def worker(ctx, job):
                             V.violation(res, sig + ":%s:%s" % (op_, classify(r2)), "after %s and a new link of the same bytes, %s gives %r" % (how, op_, r2), replay)
                 elif not ("ok" in r1 or "err" in r1) or r1.get("panics"):
                     V.violation(res, sig + ":" + classify(r1), "second link did not return a value: %r" % r1, replay)
+    # ---- every way of removing a linked entry leaves the caller's file alone (it is the caller's, not the cache's)
+    if n > 0:
+        srv.call({"op": "chdir", "dir": os.path.join(base, "work")})
+        t1 = os.path.join(base, "work", "kept-target")
+        for how in ("remove", "remove_fully", "remove_hash", "clear", "relink-same", "write-same-bytes"):
+            fsutil.wipe(cache)
+            with open(t1, "wb") as fh:
+                fh.write(data)
+            sig0 = stat_sig(t1)
+            r0 = srv.call({"op": "link_to" + ("_sync" if s else ""), "cache": cache, "key": KEY, "target": t1})
+            res["evals"] += 1
+            res["distinct"].add(V.h("target-kept", flavour, side, n, how))
+            replay = {"engine": "seqx", "case": {"flavour": flavour, "side": side, "n": n, "history": ["link", how]}}
+            sig = "link:target-after-%s/%s" % (how, side)
+            if r0.get("ok") != sri:
+                V.violation(res, sig + ":link-" + classify(r0), "link failed: %r" % r0, replay)
+                continue
+            suf_ = "_sync" if s else ""
+            if how == "remove":
+                srv.call({"op": "remove" + suf_, "cache": cache, "key": KEY})
+            elif how == "remove_fully":
+                srv.call({"op": "remove_opts" + suf_, "cache": cache, "key": KEY, "fully": True})
+            elif how == "remove_hash":
+                srv.call({"op": "remove_hash" + suf_, "cache": cache, "sri": sri})
+            elif how == "clear":
+                srv.call({"op": "clear" + suf_, "cache": cache})
+            elif how == "relink-same":
+                srv.call({"op": "link_to" + suf_, "cache": cache, "key": "again", "target": t1})
+            else:
+                srv.call({"op": "write" + suf_, "cache": cache, "key": "copy", "data": {"gen": [n, 131]}})
+            res["transitions"] += 2
+            try:
+                with open(t1, "rb") as fh:
+                    now_ = fh.read()
+            except OSError:
+                now_ = None
+            V.outcome(res, "target-kept:%s" % how)
+            if now_ != data or (how != "write-same-bytes" and stat_sig(t1) != sig0):
+                V.violation(res, sig + ":target-touched", "after link + %s the linked file %s" % (how, "is gone" if now_ is None else "was modified (bytes or inode/mtime)"), replay)
     fsutil.wipe(base)
     res["samples"].append({"flavour": flavour, "side": side, "n": n, "path_forms": list(forms), "entries": entries})
     return res
